@@ -6,12 +6,13 @@ From PyRTL Require Import Front.Ops Front.Signed Front.PySliceProofs Front.OpsPr
 Open Scope Z_scope.
 
 Lemma operand_kinds_agree f (c : operand) x :
-  (forall a, c <> OWire a) -> (forall o bw s, c <> OConst o bw s) ->
+  (forall a, c <> OWire a) -> (forall o bw s, c <> OConst o bw s) -> (forall a, c <> OLazy a) ->
   lift2 f x c = lift2 f x (OConst c None false).
 Proof.
-  intros Hw Hc. unfold lift2.
-  destruct c as [a|v|b|neg bw num|o bw s];
-    [exfalso; apply (Hw a); reflexivity| | | |exfalso; apply (Hc o bw s); reflexivity];
+  intros Hw Hc Hl. unfold lift2.
+  destruct c as [a|v|b|neg bw num|o bw s|a];
+    [exfalso; apply (Hw a); reflexivity| | | |exfalso; apply (Hc o bw s); reflexivity
+    |exfalso; apply (Hl a); reflexivity];
     cbn [as_wires]; destruct (as_wires x None);
     try match goal with |- context [const_of ?c None false] => destruct (const_of c None false) end;
     reflexivity.
@@ -88,3 +89,16 @@ Proof.
   destruct (bw <? 1) eqn:E; [lia|]. cbn [andb negb].
   rewrite Z.shiftr_div_pow2 by lia. rewrite Z.div_small by lia. reflexivity.
 Qed.
+
+(* A lazily materialised memory / ROM read used as an operand IS the read-data wire, on
+   whichever side it stands: the operator is built with the operands in the written order
+   (memory._MemIndexed._two_var_op = as_wires(self)._two_var_op(other, op)). *)
+Lemma lazy_read_is_wire f a y :
+  lift2 f (OLazy a) y = lift2 f (OWire a) y /\ lift2 f y (OLazy a) = lift2 f y (OWire a) /\
+  lift2s f (OLazy a) y = lift2s f (OWire a) y /\ lift2s f y (OLazy a) = lift2s f y (OWire a).
+Proof. repeat split; reflexivity. Qed.
+
+Lemma lazy_sub a b : wf a -> wf b ->
+  lift2 op_sub (OLazy a) (OWire b)
+  = Some ((val a - val b) mod 2 ^ (Z.max (wd a) (wd b) + 1), Z.max (wd a) (wd b) + 1).
+Proof. intros Ha Hb. unfold lift2. cbn [as_wires as_wires_wire]. rewrite sub_wrap by assumption. reflexivity. Qed.
